@@ -297,6 +297,28 @@ mod tests {
         }
     }
     #[test]
+    fn decimal_order() {
+        let a = DecN::from_parts(b"1", b"5", 0);
+        let b = DecN::from_parts(b"15", b"", -1);
+        let c = DecN::from_parts(b"", b"00150000000000000000000000000001", 3);
+        assert_eq!(a.cmp_dec(&b), Ordering::Equal);
+        assert_eq!(a.cmp_dec(&c), Ordering::Less);
+        assert_eq!(c.cmp_dec(&a), Ordering::Greater);
+        assert_eq!(DecN::from_parts(b"", b"", 7).cmp_dec(&a), Ordering::Less);
+        // sticky: more than ORACLE_DIGITS digits
+        let mut long = vec![b'1'; 900];
+        let l = DecN::from_parts(&long, b"", 0);
+        assert!(l.sticky && l.nd == ORACLE_DIGITS);
+        long.truncate(800);
+        long.extend(std::iter::repeat(b'0').take(100));
+        let m = DecN::from_parts(&long, b"", 0);
+        assert_eq!(l.cmp_dec(&m), Ordering::Greater);
+        // interval ends
+        assert!(check(&DecN::from_parts(b"9007199254740993", b"", 0), F64, 9007199254740992f64.to_bits()));
+        assert!(check(&DecN::from_parts(b"9007199254740993", b"0000000000000000000000000000000000001", 0), F64, 9007199254740994f64.to_bits()));
+        assert!(!check(&DecN::from_parts(b"9007199254740993", b"", 0), F64, 9007199254740994f64.to_bits()));
+    }
+    #[test]
     fn expansions() {
         assert_eq!(expand(1, -1), (b"5".to_vec(), -1));
         assert_eq!(expand(3, 2), (b"12".to_vec(), 0));
